@@ -263,6 +263,7 @@ func (s *Sched) Run() {
 			}
 		}
 		s.collect(false)
+		c.Poisoned = true
 		c.Fail("no-deadlock", "deadlock", "all workers blocked", "every unfinished worker is blocked on a lock:%s", names)
 	}
 	s.wg.Wait() // visible join: from here the controller may read the workers' logs
